@@ -306,6 +306,7 @@ pub(crate) fn rec_generate_moves<F: FnMut(PieceMoves) -> bool>(_b: &Board, _list
     }
 }
 #[kani::proof]
+#[kani::unwind(9)]
 #[kani::stub(crate::board::Board::generate_moves, rec_generate_moves)]
 fn c12_status_table() {
     let p = any_pos_raw();
